@@ -1282,7 +1282,13 @@ class WebSocketProtocol13(WebSocketProtocol):
             if len(data) >= 2:
                 self.close_code = struct.unpack(">H", data[:2])[0]
             if len(data) > 2:
-                self.close_reason = to_unicode(data[2:])
+                try:
+                    self.close_reason = data[2:].decode("utf-8")
+                except UnicodeDecodeError:
+                    # The reason must be UTF-8 (RFC 6455 section 5.5.1);
+                    # fail the connection like an invalid text message.
+                    self._abort()
+                    return None
             # Echo the received close code, if any (RFC 6455 section 5.5.1).
             self.close(self.close_code)
         elif opcode == 0x9:
